@@ -22,14 +22,17 @@ import (
 //	                the faults stop the height can only be finished through
 //	                RecoveryRequest / RecoveryMessage. v = 0, or v >= 1 after
 //	                every proposal of the lower views was lost.
-//	backlog-burst   the inbound link of a validator stalls for >= 2 blocks; f
-//	                more validators are cut so that the others cannot finish the
-//	                next height without it; the backlog (consensus payloads of
-//	                the heights it missed, the blocks, the proposal and responses
-//	                of the open height) arrives in one burst while what it sends
-//	                is lost; then recovery messages are lost, so that the only
-//	                way on is a view change - unless the validator still knows
-//	                that it committed.
+//	backlog-burst   the inbound links of up to f validators stall for more than
+//	                N blocks; f+1-|laggers| more validators are then cut, so that
+//	                the others cannot finish the next height without a lagger.
+//	                First the consensus payloads of the heights above the
+//	                laggers' get through (kept for later, including the proposal
+//	                and the responses of the open height), then the batch of
+//	                blocks and the rest in one burst: the ledger adds blocks
+//	                while the consensus loop replays what it kept, and runs
+//	                ahead of it. What the laggers send meanwhile is lost; then
+//	                recovery messages are lost, so that the only way on is a view
+//	                change - unless a validator still knows that it committed.
 //	epoch-burst     the same burst across a change of the validator count
 //	                (7 -> 4): f+1 = 2 validators of the small set lag behind the
 //	                big one (f = 2 there) and catch up on its last blocks and on
@@ -73,6 +76,7 @@ const scenBase = 1000 // schedule indices of scripted schedules start here
 
 func scenSchedules() []schedule {
 	thorough := ev.Tier() == "thorough"
+	part := os.Getenv("VERIF_PART")
 	var out []schedule
 	add := func(id, scen string, c clusterCfg, rounds []scenRound, maxTxs int) {
 		idx := scenBase + len(out)
@@ -83,6 +87,32 @@ func scenSchedules() []schedule {
 	lock := func(v int, b string) scenRound { return scenRound{Kind: "commit-lock", View: v, BMode: b} }
 	recRounds := []scenRound{lock(0, ""), lock(0, "lost-request"), lock(0, "responses-only"), lock(1, "lost-request"), lock(1, ""), lock(1, "cut"), lock(1, "responses-only"), lock(0, "cut"), lock(2, "lost-request")}
 	burst := scenRound{Kind: "backlog-burst"}
+	epoch := []scenRound{{Kind: "epoch-burst"}}
+	if part == "bursts" {
+		// The part without the race detector: the bursts once more, with the
+		// timing of a production build (under the detector a ledger needs
+		// relatively longer per block than the consensus loop per height, and
+		// the point of a burst is a ledger that runs ahead of the loop).
+		nb, ne, rounds := 3, 4, 6
+		if thorough {
+			nb, ne, rounds = 8, 24, 10
+		}
+		for i := 0; i < nb; i++ {
+			c := clusterCfg{N: 7, SRIH: i%2 == 1, ExtPool: i%3 == 2}
+			if i%4 == 3 {
+				c.N = 4
+			}
+			add(fmt.Sprintf("burst-nr-%d", i), "burst", c, slices.Repeat([]scenRound{burst}, rounds), 30)
+		}
+		for i := 0; i < ne; i++ {
+			c := clusterCfg{N: 7, SwitchTo: 4, SwitchAt: 14, SRIH: i%2 == 1, ExtPool: i%3 == 2}
+			if i%4 == 3 {
+				c.SwitchAt = 21
+			}
+			add(fmt.Sprintf("epoch-burst-nr-%d", i), "epoch", c, epoch, 20)
+		}
+		return out
+	}
 	for i, srih := range []bool{false, true} {
 		add(fmt.Sprintf("rec-%d", i), "rec", clusterCfg{N: 4, SRIH: srih, ExtPool: i == 1}, recRounds, 40)
 	}
@@ -93,11 +123,9 @@ func scenSchedules() []schedule {
 		add(fmt.Sprintf("burst-%d", i), "burst", clusterCfg{N: 7, SRIH: srih}, slices.Repeat([]scenRound{burst}, 6), 30)
 	}
 	add("burst-2", "burst", clusterCfg{N: 4, ExtPool: true}, slices.Repeat([]scenRound{burst}, 6), 30)
-	for i, srih := range []bool{false, true} {
-		add(fmt.Sprintf("epoch-burst-%d", i), "epoch", clusterCfg{N: 7, SwitchTo: 4, SwitchAt: 14, SRIH: srih}, []scenRound{{Kind: "epoch-burst"}}, 20)
-	}
+	add("epoch-burst-0", "epoch", clusterCfg{N: 7, SwitchTo: 4, SwitchAt: 14}, epoch, 20)
 	if thorough {
-		long := slices.Concat(recRounds, []scenRound{lock(2, ""), lock(2, "cut"), lock(3, "lost-request"), lock(1, "lost-request"), lock(0, "")})
+		long := slices.Concat(recRounds, []scenRound{lock(2, ""), lock(2, "cut"), lock(3, "lost-request"), lock(1, "lost-request"), lock(2, "responses-only"), lock(0, "")})
 		for i := 2; i < 8; i++ {
 			c := clusterCfg{N: 4, SRIH: i%2 == 1, ExtPool: i%3 == 0}
 			if i >= 4 {
@@ -108,19 +136,19 @@ func scenSchedules() []schedule {
 			}
 			add(fmt.Sprintf("rec-%d", i), "rec", c, long, 80)
 		}
-		for i := 3; i < 10; i++ {
+		for i := 3; i < 8; i++ {
 			c := clusterCfg{N: 7, SRIH: i%2 == 1, ExtPool: i%3 == 0}
-			if i >= 8 {
+			if i >= 7 {
 				c.N = 4
 			}
 			add(fmt.Sprintf("burst-%d", i), "burst", c, slices.Repeat([]scenRound{burst}, 10), 60)
 		}
-		for i := 2; i < 26; i++ {
+		for i := 1; i < 6; i++ {
 			c := clusterCfg{N: 7, SwitchTo: 4, SwitchAt: 14, SRIH: i%2 == 1, ExtPool: i%3 == 0}
 			if i%4 == 3 {
 				c.SwitchAt = 21
 			}
-			add(fmt.Sprintf("epoch-burst-%d", i), "epoch", c, []scenRound{{Kind: "epoch-burst"}}, 20)
+			add(fmt.Sprintf("epoch-burst-%d", i), "epoch", c, epoch, 20)
 		}
 	}
 	return out
@@ -345,7 +373,6 @@ func (a *attempt) commitLock(r scenRound) {
 	if established {
 		a.net.count("commit_lock_rounds_established", 1)
 		a.net.count(fmt.Sprintf("commit_lock_established_%s", r), 1)
-		a.lockHeight = lockedAt
 	}
 }
 
@@ -359,17 +386,9 @@ func (a *attempt) backlogBurst(r scenRound) {
 	if a.sr.Intn(3) == 0 {
 		nl = 1 + a.sr.Intn(f)
 	}
-	if v := os.Getenv("C19_NL"); v != "" { // experiment knob
-		fmt.Sscan(v, &nl)
-	}
 	laggers := a.sr.Perm(n)[:nl]
 	isLagger := setOf(n, laggers...)
 	k := uint32(n + 1 + a.sr.Intn(4))
-	if v := os.Getenv("C19_K"); v != "" { // experiment knob
-		var kb, kr int
-		fmt.Sscanf(v, "%d,%d", &kb, &kr)
-		k = uint32(kb + a.sr.Intn(max(kr, 1)))
-	}
 	// (0) the laggers' inbound links stall right after a block, so that the
 	// whole consensus traffic of their next height is in the backlog; the
 	// others go on until the laggers are k blocks behind and none of them is
@@ -403,10 +422,8 @@ func (a *attempt) backlogBurst(r scenRound) {
 	// The consensus payloads of the heights above the one the laggers work on
 	// get through first (small, pushed by every peer; the laggers keep them
 	// for later), the batch of blocks and the rest follow in step (2).
-	if os.Getenv("C19_NOSTAGE") == "" { // experiment knob
-		for _, l := range laggers {
-			c.HoldBelow = max(c.HoldBelow, cl.heights()[l]+2)
-		}
+	for _, l := range laggers {
+		c.HoldBelow = max(c.HoldBelow, cl.heights()[l]+2)
 	}
 	a.faultStep(c, func() bool { return false }, 3*blockTime)
 	hs := cl.heights()
